@@ -6,7 +6,7 @@ histories with the expected observations; cmd/c16 replays each on the real frame
 with a scripted test module, using the engine's own call sequence and request shapes, and compares the returned events,
 the state read back through the real stores, the state DB and the committed / reverted / recovered state roots (expected
 root = SHA-256 fold of the spec's LIP-0039 term)."""
-import json, os
+import json, os, re
 import common
 from common import Inconclusive, finish, log
 from props import c01
@@ -14,6 +14,11 @@ from props import c01
 LEVEL = "model_checking"
 SUMS = ("histories", "steps", "tx_executed", "tx_failed", "tx_state_observations", "events_compared", "commits", "dry_run_commits",
         "reverts", "restarts", "restarts_app_ahead", "roots_compared", "state_dumps_compared", "histories_aborted_after_violation")
+
+
+def interesting(h):
+    """a history with a failing transaction that wrote, deleted and emitted events"""
+    return any(s["op"] == "tx" and s["ok"] == 0 and len(s["w"]) >= 2 and any(w[1] == 0 for w in s["w"]) and len(s["e"]) >= 2 for s in h)
 
 
 def generate(ctx, name, base, cfgkw, **kw):
@@ -33,17 +38,35 @@ def generate(ctx, name, base, cfgkw, **kw):
             if k in seen:
                 continue
             seen.add(k); fh.write(json.dumps(t) + "\n"); n += 1
-            if sample is None and len(t) >= 4:
+            if (sample is None or not interesting(sample)) and len(t) >= 3 and (sample is None or interesting(t)):
                 sample = t
     r["out"] = None
-    if n == 0:
+    if not ctx.violations and (n == 0):
         raise Inconclusive("TLC printed no history for %s: vacuous" % name)
     return hf, mf, n, sample, r
 
 
+def engine_request_shape(ctx):
+    """Does the ExecuteTransactionRequest built by the engine's two callers carry a Consensus?  (Today neither does.)
+    The harness sends the request the engine sends."""
+    shape = {}
+    for who, rel in (("consensus", "pkg/consensus/abi_caller.go"), ("generator", "pkg/generator/abi_caller.go")):
+        try:
+            src = open(os.path.join(common.REPO, rel)).read()
+        except OSError as e:
+            raise Inconclusive("cannot read %s: %s" % (rel, e))
+        lits = re.findall(r"labi\.ExecuteTransactionRequest\{(.*?)\}", src, re.S)
+        if len(lits) != 1:
+            raise Inconclusive("%s: expected one ExecuteTransactionRequest literal, found %d (engine call sequence refactored?)" % (rel, len(lits)))
+        shape[who] = bool(re.search(r"\bConsensus\s*:", lits[0]))
+    sf = ctx.path("shape.json"); json.dump(shape, open(sf, "w"))
+    log("[c16] engine ExecuteTransactionRequest carries Consensus: %s" % json.dumps(shape))
+    return sf
+
+
 def replay(ctx, binp, hf, mf, name):
     of = ctx.path(name + "_res.json")
-    p = ctx.run([binp, hf, mf, of], timeout=3000)
+    p = ctx.run([binp, hf, mf, of, ctx.c16_shape], timeout=3000)
     if p.returncode != 0 or not os.path.exists(of):
         raise Inconclusive("c16 harness failed (rc=%d): %s" % (p.returncode, p.stderr[-1500:]))
     res = json.load(open(of))
@@ -64,6 +87,7 @@ def project(step):
 
 def run(ctx):
     binp = ctx.go_build("./cmd/c16")
+    ctx.c16_shape = engine_request_shape(ctx)
     if ctx.replay:
         d = json.load(open(ctx.replay))["replay"]
         if isinstance(d, list):
@@ -89,19 +113,19 @@ def run(ctx):
     runs = []
     if q:
         # one transaction (<= 2 writes, <= 3 events, <= 4 operations) on 3 preset states x commit|crash x revert|restart
-        runs.append(("tx2", "StateMachine_tx", dict(Plan="PlanTx2", DumpEvery=3), dict(workers=8), True))
+        runs.append(("tx2", "StateMachine_tx", dict(Plan="PlanTx2", DumpEvery=4), dict(workers=8), True))
         # two blocks, commit|crash, revert|restart, revert|transaction, commit
-        runs.append(("seqA", "StateMachine_tx", dict(Plan="PlanSeqA", DumpEvery=3), dict(workers=8), True))
+        runs.append(("seqA", "StateMachine_tx", dict(Plan="PlanSeqA", DumpEvery=4), dict(workers=8), True))
         # two transactions in one block
-        runs.append(("2txA", "StateMachine_tx", dict(Plan="Plan2TxA", DumpEvery=4), dict(workers=8), True))
+        runs.append(("2txA", "StateMachine_tx", dict(Plan="Plan2TxA", DumpEvery=5), dict(workers=8), True))
         runs.append(("sim", "StateMachine_sim", dict(Plan="PlanSim14"), dict(workers=1, simulate=300, depth=16), False))
     else:
         runs.append(("tx2", "StateMachine_tx", dict(Plan="PlanTx2", DumpEvery=1), dict(workers=8), True))
-        runs.append(("tx3", "StateMachine_tx", dict(Plan="PlanTx3", DumpEvery=8), dict(workers=12), True))
-        runs.append(("tx4", "StateMachine_tx", dict(Plan="PlanTx4", Presets="Presets2", DumpEvery=60), dict(workers=12, timeout=2400), True))
-        runs.append(("seqB", "StateMachine_tx", dict(Plan="PlanSeqB", DumpEvery=20), dict(workers=12), True))
-        runs.append(("2txB", "StateMachine_tx", dict(Plan="Plan2TxB", DumpEvery=12), dict(workers=12), True))
-        runs.append(("sim", "StateMachine_sim", dict(Plan="PlanSim22"), dict(workers=1, simulate=4000, depth=24), False))
+        runs.append(("tx3", "StateMachine_tx", dict(Plan="PlanTx3", DumpEvery=12), dict(workers=12), True))
+        runs.append(("tx4", "StateMachine_tx", dict(Plan="PlanTx4", Presets="Presets1", DumpEvery=40), dict(workers=12, timeout=2400), True))
+        runs.append(("seqB", "StateMachine_tx", dict(Plan="PlanSeqB", DumpEvery=24), dict(workers=12), True))
+        runs.append(("2txB", "StateMachine_tx", dict(Plan="Plan2TxB", DumpEvery=20), dict(workers=12), True))
+        runs.append(("sim", "StateMachine_sim", dict(Plan="PlanSim22"), dict(workers=1, simulate=2500, depth=24), False))
     tot = {k: 0 for k in SUMS}
     counts = {}
     degraded = {}
@@ -131,7 +155,7 @@ def run(ctx):
             name, res["histories"], res["steps"], res["tx_executed"], res["tx_failed"], res["commits"], res["dry_run_commits"],
             res["reverts"], res["restarts"], res["restarts_app_ahead"], res["roots_compared"],
             json.dumps(res.get("violation_counts") or {}, sort_keys=True)))
-    if min(tot["tx_failed"], tot["commits"], tot["reverts"], tot["restarts_app_ahead"], tot["dry_run_commits"]) < 50 or tot["tx_state_observations"] < 1000:
+    if not ctx.violations and (min(tot["tx_failed"], tot["commits"], tot["reverts"], tot["restarts_app_ahead"], tot["dry_run_commits"]) < 50 or tot["tx_state_observations"] < 1000):
         raise Inconclusive("the histories did not exercise failing transactions / commits / reverts / recoveries enough: vacuous")
     cov = dict(traces_validated_against_impl=tot["histories"], samples=samples, replayed_steps=tot["steps"],
                transactions_executed=tot["tx_executed"], failing_transactions_executed=tot["tx_failed"],
